@@ -84,6 +84,14 @@ CHECKS['C13'] = dict(
          'a state machine applies update(a,b,overwrite) / copy / evaluate / repeated updates to ThermochemGroup objects next to a dict-union model, checking failure atomicity, idempotence and that sources are untouched. Exploration.',
     note='Trusted: the dict-union model (validated against the code in the design round). All files of a scenario share one reference temperature.',
     ref='DESIGN.md C13')
+CHECKS['C14'] = dict(
+    technique='bounded-exhaustive enumeration of the shipped configuration (libraries x locations x entries) against self-consistency predicates and cross-location fingerprint equality; second independent RING parser',
+    text='All 9 bundled libraries are loaded in fresh interpreters by name, by path, from a relocated copy selected with pgradd_DATA_DIR (absolute and relative) and by path from a copy with an edited scheme; '
+         'fingerprints must be identical and come from the right files. Every group is evaluated for each property it has data for across its range (finite plain numbers), every connectivity string is read by the '
+         'library reader and by vlib/ringparse.py, remaps are checked well-formed and chain-free, uncertainty bases must name entries with data and matrices be square, basis-sized, symmetric, PSD. '
+         'Exhaustive over a finite space (reported as exploration).',
+    note='Trusted: numpy eigvalsh; the independent parser as second reader. Fresh interpreters import the same working tree.',
+    ref='DESIGN.md C14')
 NOT_YET = {}
 
 def main():
